@@ -105,31 +105,19 @@ func (r *repository) UpdateRuleSet(srcID string, rules []rule.Rule) error {
 	// find all rules for the given src id
 	applicable := slicex.Filter(r.knownRules, func(r rule.Rule) bool { return r.SrcID() == srcID })
 
-	// find new rules, as well as those, which have been changed.
-	toBeAdded := slicex.Filter(rules, func(newRule rule.Rule) bool {
-		ruleIsNew := !slices.ContainsFunc(applicable, func(existingRule rule.Rule) bool {
-			return existingRule.SameAs(newRule)
-		})
+	// nothing to do if neither the rules nor their order changed
+	if slices.EqualFunc(applicable, rules, func(existingRule, newRule rule.Rule) bool {
+		return existingRule.EqualTo(newRule)
+	}) {
+		return nil
+	}
 
-		ruleChanged := slices.ContainsFunc(applicable, func(existingRule rule.Rule) bool {
-			return existingRule.SameAs(newRule) && !existingRule.EqualTo(newRule)
-		})
-
-		return ruleIsNew || ruleChanged
-	})
-
-	// find deleted rules, as well as those, which have been changed.
-	toBeDeleted := slicex.Filter(applicable, func(existingRule rule.Rule) bool {
-		ruleGone := !slices.ContainsFunc(rules, func(newRule rule.Rule) bool {
-			return newRule.SameAs(existingRule)
-		})
-
-		ruleChanged := slices.ContainsFunc(rules, func(newRule rule.Rule) bool {
-			return newRule.SameAs(existingRule) && !newRule.EqualTo(existingRule)
-		})
-
-		return ruleGone || ruleChanged
-	})
+	// Rules sharing a path expression are kept in the corresponding tree node in the order of their insertion,
+	// and that order decides which of them is used if the conditions of several of them are satisfied. To have
+	// it always reflect the order of the rules in the new version of the rule set (as it would be the case
+	// if the rule set were loaded from scratch), the rules of the old version are replaced as a whole.
+	toBeDeleted := applicable
+	toBeAdded := rules
 
 	tmp := r.index.Clone()
 
